@@ -1,3 +1,4 @@
+import Mrpro.Lemmas.PowL
 import Mrpro.Model.Rotation
 import Mrpro.Lemmas.RotationL
 /-! # C13 — rotations, proper and improper, obey the group laws of O(3)
@@ -51,5 +52,23 @@ theorem axisAngle_pow (u : V3 ℝ) (hu : u.x0 * u.x0 + u.x1 * u.x1 + u.x2 * u.x2
 
 /-- non-vacuity: a unit axis exists -/
 example : ((1 : ℝ) * 1 + 0 * 0 + 0 * 0 = 1) := by norm_num
+
+/-! ### `p ** n` as coded: `from_rotvec(n * p.as_rotvec())` (`M.powQ`, over ℝ with the real transcendental functions) -/
+
+/-- **`p ** n` is the n-fold composition** for every natural `n` (and `p ** 0` the identity), for every unit quaternion in
+canonical form, at the level of quaternions … -/
+theorem pow_nat (q : Q ℝ) (hq : q.normSq = 1) (hw : 0 ≤ q.w) (n : ℕ) :
+    M.powQ (n : ℝ) q = (fun p => Q.mul p q)^[n] ⟨0, 0, 0, 1⟩ := M.powQ_nat q hq hw n
+/-- … negative integers compose the inverse … -/
+theorem pow_neg_nat (q : Q ℝ) (hq : q.normSq = 1) (hw : 0 ≤ q.w) (n : ℕ) :
+    M.powQ (-(n : ℝ)) q = (fun p => Q.mul p q.conj)^[n] ⟨0, 0, 0, 1⟩ := M.powQ_int q hq hw n
+/-- … and at the level of rotation matrices, also for a quaternion stored with negative scalar part (canonicalised first) -/
+theorem pow_nat_toMat (q : Q ℝ) (hq : q.normSq = 1) (n : ℕ) :
+    (0 ≤ q.w → (M.powQ (n : ℝ) q).toMat = (fun m => Mat3.mul m q.toMat)^[n] M.Mat3.one')
+    ∧ (q.w ≤ 0 → (M.powQ (n : ℝ) q.neg).toMat = (fun m => Mat3.mul m q.toMat)^[n] M.Mat3.one') :=
+  ⟨fun hw => M.powQ_nat_toMat q hq hw n, fun hw => M.powQ_nat_toMat_neg q hq hw n⟩
+/-- fractional powers form a one-parameter subgroup: `p ** x @ p ** y = p ** (x + y)` for all real exponents -/
+theorem pow_add (q : Q ℝ) (hq : q.normSq = 1) (x y : ℝ) : Q.mul (M.powQ x q) (M.powQ y q) = M.powQ (x + y) q :=
+  M.powQ_add' q hq x y
 
 end C13
